@@ -14,8 +14,33 @@ import re
 from props import own_common
 
 
+def reader_schedules(ctx, cov):
+    """Readers against concurrent commits: the histories above make one API call at a time, so a reader whose registration
+    interleaves with a commit is not among them. The forced begin_read-split and commit-gap schedules of the C02 harness
+    (pause points between the lock-protected sections of begin_read and of the commit paths) are run here as well and
+    judged by C06's clause: a page reachable from a live read transaction is never freed or rewritten."""
+    rc, out = ctx.harness("c02", [0, 30], timeout=1500)
+    m = re.search(r"splits=(\d+)", out or "")
+    if rc != 0 or not m:
+        return False, "harness c02 (reader schedules) failed rc=%s: %s" % (rc, (out or "")[-600:])
+    cov["reader_schedules"] = int(m.group(1))
+    cov["evaluations"] += int(m.group(1))
+    seen = set()
+    p = os.path.join(ctx.workdir, "oracle.txt")
+    for l in (open(p).read().split("\n") if os.path.exists(p) else []):
+        f = l.split("|", 2)
+        if len(f) == 3 and f[0] == "V" and f[1] not in seen:
+            seen.add(f[1])
+            ctx.violation("c06-live-reader-" + f[1].replace("c02-", ""),
+                          "a page reachable from a live read transaction was freed / reused / rewritten under a forced schedule "
+                          "(reader registration or a commit split at a pause point): " + f[2][:700],
+                          {"harness": "c02", "args": [0, 30], "key": f[1], "what": f[2][:3000],
+                           "how": "VERIF_SEED=%d: harness c02 0 30 (forced begin_read-split and commit-gap schedules); oracle.txt" % ctx.seed})
+    return True, None
+
+
 def run(ctx):
-    return own_common.run(ctx, "C06", "c06",
+    return own_common.run(ctx, "C06", "c06", extra_stage=reader_schedules,
                           quick=(220, 40), thorough=(6000, 60),
                           assumptions=[
                               "b-tree page churn, record pagination, DATA_ALLOCATED/PageTracker and the "
